@@ -9,13 +9,15 @@ PID = "C03"
 LEVEL = "exploration"
 RULE = ("real client pair + real mailbox server on SimNet; server `message` responses pooled and "
         "released in scheduler-chosen order with duplicates; client links cut at random/swept steps "
-        "with real ClientService reconnects in virtual time; sends gated at any/code/key/verified. "
+        "with real ClientService reconnects in virtual time; sends gated at any/code/key/verified; a share "
+        "of the cases also calls dilate() on both wormholes so that dilate-N records travel (reordered, "
+        "duplicated) among the numbered application phases. "
         "A case is non-trivial when each side received >=1 message and at least one reorder, "
         "duplicate or effective drop happened; distinct = distinct scheduler decision traces.")
 ASSUMPTIONS = ["SimNet mirrors twisted tcp transport semantics (vt selftest)",
                "payloads carry a unique id so a delivery identifies its send"]
-FLOORS = {"quick": {"delivered": 200, "adv_out_of_order": 50, "adv_dups": 20, "drops": 20},
-          "thorough": {"delivered": 2000, "adv_out_of_order": 500, "adv_dups": 200, "drops": 200}}
+FLOORS = {"quick": {"delivered": 200, "adv_out_of_order": 50, "adv_dups": 20, "drops": 20, "dilate_records_rx": 150},
+          "thorough": {"delivered": 2000, "adv_out_of_order": 500, "adv_dups": 200, "drops": 200, "dilate_records_rx": 5000}}
 
 
 def cases(tier, seed, prep=None):
@@ -23,6 +25,10 @@ def cases(tier, seed, prep=None):
     n_random = 360 if tier == "quick" else 12000
     for i in range(n_random):
         out.append({"kind": "random", "seed": seed * 1000003 + i})
+    # the same exchange on wormholes that are also being dilated: dilate-N control records share the
+    # mailbox and the reordering server with the application's numbered phases
+    for i in range(80 if tier == "quick" else 2500):
+        out.append({"kind": "random", "seed": seed * 1000003 + 40000 + i, "dilate": True, "min_msgs": 2, "ndrops": [0, 0, 1]})
     bases = range(3) if tier == "quick" else range(24)
     stride = 4 if tier == "quick" else 1
     for b in bases:
@@ -42,6 +48,22 @@ def cases(tier, seed, prep=None):
 
 def run_case(spec):
     world, drv, sch, cfg = build_case(spec)
+    dilated = [0]
+    if spec.get("dilate"):
+        rng = world.work_rng
+        for app in (drv.a, drv.b):
+            def go(app=app):
+                try:
+                    app.w.dilate()
+                    dilated[0] += 1
+                except Exception as e:
+                    world.escapes.append((world.step, "app", "dilate()", type(e).__name__, repr(e)[:200], ""))
+            k = rng.choice([0, 0, rng.randint(1, 60), rng.randint(60, 200)])
+            if k == 0:
+                go()
+            else:
+                sch.faults.append((k, go, "dilate %s" % app.name))
+        sch.faults.sort(key=lambda f: f[0])
     end = sch.run(1500, until=drv.all_delivered)
     sch.drain(120.0, 6000, until=drv.all_delivered)
     drv.a.close()
@@ -71,7 +93,9 @@ def run_case(spec):
         "counters": {"delivered": delivered, "adv_out_of_order": adv.out_of_order, "adv_dups": adv.dups,
                      "drops": drv.drops_done, "drops_skipped": drv.drops_skipped, **{"drop_" + k: v for k, v in drv.drop_kinds.items()},
                      "complete": int(drv.all_delivered()), "steps": world.step,
-                     "kind_" + spec["kind"]: 1,
+                     "kind_" + spec["kind"]: 1, "dilate_calls": dilated[0],
+                     "dilate_records_rx": sum(1 for app in (drv.a, drv.b) for (_, m) in app.inbound
+                                              if m.get("type") == "message" and str(m.get("phase", "")).startswith("dilate-")),
                      "notrans_seen": len(MON.notrans), "log_errors_seen": len(MON.errors)},
         "sample": {"spec": spec, "cfg": {k: v for k, v in cfg.items() if not k.startswith("plan")},
                    "sent_A": len(drv.a.sent), "sent_B": len(drv.b.sent),
